@@ -54,6 +54,42 @@ pub fn gen_c02(rng: &mut Rng, thorough: bool) -> Vec<Tagged> {
             out.push(("seq-forward".into(), Case::Net(spec, NetCmd::Forward(x))));
         }
     }
+    // boundary classes visited deterministically: wide dense rows, kernels larger than the input (with
+    // padding), strides larger than the kernel, dilation 3, several channels and filters, pooling
+    // windows equal to the input
+    for &n in &[31usize, 32, 33, 36, 64, 65, 100] {
+        let d = Simple::Dense { out: 2, act: Act::Linear, bias: true, dropout: None };
+        let mut spec = NetSpec::new(Sh::Flat(n).to_shape());
+        spec.weights = Some(vec![LW::One(rand_w(rng, &d, Sh::Flat(n), 1))]);
+        spec.layers.push(LayerSpec::One(d));
+        out.push(("dense-wide-fwd".into(), Case::Net(spec, NetCmd::Forward(rand_input(rng, Sh::Flat(n), 0)))));
+    }
+    let spatial_cases: Vec<(Sh, Simple)> = vec![
+        (Sh::Sp(3, 3, 4), Simple::Conv { filters: 3, kernel: (5, 5), stride: (1, 1), padding: (2, 2), dilation: (1, 1), act: Act::Linear, dropout: None }),
+        (Sh::Sp(2, 2, 3), Simple::Conv { filters: 2, kernel: (4, 6), stride: (1, 2), padding: (2, 3), dilation: (1, 1), act: Act::Tanh, dropout: None }),
+        (Sh::Sp(1, 7, 6), Simple::Conv { filters: 2, kernel: (2, 2), stride: (4, 3), padding: (0, 1), dilation: (1, 1), act: Act::Linear, dropout: None }),
+        (Sh::Sp(4, 7, 7), Simple::Conv { filters: 1, kernel: (3, 2), stride: (1, 1), padding: (0, 0), dilation: (3, 3), act: Act::Linear, dropout: None }),
+        (Sh::Sp(2, 5, 5), Simple::Conv { filters: 3, kernel: (3, 3), stride: (2, 1), padding: (3, 0), dilation: (2, 1), act: Act::ReLU, dropout: None }),
+        (Sh::Sp(3, 2, 3), Simple::Deconv { filters: 2, kernel: (5, 4), stride: (3, 2), padding: (2, 1), act: Act::Linear, dropout: None }),
+        (Sh::Sp(1, 3, 1), Simple::Deconv { filters: 3, kernel: (1, 5), stride: (2, 3), padding: (0, 2), act: Act::Sigmoid, dropout: None }),
+        (Sh::Sp(4, 1, 1), Simple::Deconv { filters: 1, kernel: (3, 3), stride: (1, 1), padding: (1, 1), act: Act::Linear, dropout: None }),
+        (Sh::Sp(3, 4, 5), Simple::Maxpool { kernel: (4, 5), stride: (1, 1) }),
+        (Sh::Sp(2, 5, 6), Simple::Maxpool { kernel: (3, 2), stride: (1, 2) }),
+        (Sh::Sp(1, 6, 6), Simple::Maxpool { kernel: (2, 2), stride: (3, 3) }),
+        (Sh::Sp(2, 1, 7), Simple::Maxpool { kernel: (1, 3), stride: (1, 2) }),
+    ];
+    for (inp, l) in spatial_cases {
+        if out_shape(&l, inp).is_none() {
+            continue;
+        }
+        let mut spec = NetSpec::new(inp.to_shape());
+        spec.weights = Some(vec![LW::One(rand_w(rng, &l, inp, 1))]);
+        let kind = l.kind();
+        spec.layers.push(LayerSpec::One(l));
+        let x = rand_input(rng, inp, 0);
+        out.push((format!("{}-boundary-fwd", kind), Case::Net(spec.clone(), NetCmd::Forward(x.clone()))));
+        out.push((format!("{}-boundary-fwd-flatinput", kind), Case::Net(spec, NetCmd::Forward(flat_version(&x)))));
+    }
     out
 }
 
@@ -239,6 +275,38 @@ pub fn gen_c01(rng: &mut Rng, thorough: bool) -> Vec<Tagged> {
             let tag = if spec.obj == Obj::CE && end_dense && r % 4 == 0 { "net-bwd-softmax-ce" } else { "net-bwd" };
             out.push((tag.into(), Case::Net(spec, NetCmd::Backward(x, t))));
         }
+    }
+    // boundary configurations visited deterministically (see gen_c02): layer-level backward
+    let spatial_cases: Vec<(Sh, Simple)> = vec![
+        (Sh::Sp(3, 3, 4), Simple::Conv { filters: 3, kernel: (5, 5), stride: (1, 1), padding: (2, 2), dilation: (1, 1), act: Act::Linear, dropout: None }),
+        (Sh::Sp(2, 2, 3), Simple::Conv { filters: 2, kernel: (4, 6), stride: (1, 2), padding: (2, 3), dilation: (1, 1), act: Act::Tanh, dropout: None }),
+        (Sh::Sp(1, 7, 6), Simple::Conv { filters: 2, kernel: (2, 2), stride: (4, 3), padding: (0, 1), dilation: (1, 1), act: Act::Linear, dropout: None }),
+        (Sh::Sp(4, 7, 7), Simple::Conv { filters: 1, kernel: (3, 2), stride: (1, 1), padding: (0, 0), dilation: (3, 3), act: Act::Linear, dropout: None }),
+        (Sh::Sp(2, 5, 5), Simple::Conv { filters: 3, kernel: (3, 3), stride: (2, 1), padding: (3, 0), dilation: (2, 1), act: Act::Sigmoid, dropout: None }),
+        (Sh::Sp(3, 2, 3), Simple::Deconv { filters: 2, kernel: (5, 4), stride: (3, 2), padding: (2, 1), act: Act::Linear, dropout: None }),
+        (Sh::Sp(1, 3, 1), Simple::Deconv { filters: 3, kernel: (1, 5), stride: (2, 3), padding: (0, 2), act: Act::Sigmoid, dropout: None }),
+        (Sh::Sp(4, 1, 1), Simple::Deconv { filters: 1, kernel: (3, 3), stride: (1, 1), padding: (1, 1), act: Act::Linear, dropout: None }),
+        (Sh::Sp(3, 4, 5), Simple::Maxpool { kernel: (4, 5), stride: (1, 1) }),
+        (Sh::Sp(2, 5, 6), Simple::Maxpool { kernel: (3, 2), stride: (1, 2) }),
+        (Sh::Sp(1, 6, 6), Simple::Maxpool { kernel: (2, 2), stride: (3, 3) }),
+        (Sh::Sp(2, 1, 7), Simple::Maxpool { kernel: (1, 3), stride: (1, 2) }),
+    ];
+    for (inp, l) in spatial_cases {
+        let osh = match out_shape(&l, inp) { Some(s) => s, None => continue };
+        let mut spec = NetSpec::new(inp.to_shape());
+        spec.weights = Some(vec![LW::One(rand_w(rng, &l, inp, 1))]);
+        let kind = l.kind();
+        spec.layers.push(LayerSpec::One(l));
+        let x = rand_input(rng, inp, 2);
+        let g = rand_input(rng, osh, 1);
+        out.push((format!("{}-boundary-layer-bwd", kind), Case::Net(spec, NetCmd::LayerBackward(0, x, g))));
+    }
+    for &n in &[31usize, 32, 33, 65] {
+        let d = Simple::Dense { out: 3, act: Act::Tanh, bias: true, dropout: None };
+        let mut spec = NetSpec::new(Sh::Flat(n).to_shape());
+        spec.weights = Some(vec![LW::One(rand_w(rng, &d, Sh::Flat(n), 1))]);
+        spec.layers.push(LayerSpec::One(d));
+        out.push(("dense-wide-layer-bwd".into(), Case::Net(spec, NetCmd::LayerBackward(0, rand_input(rng, Sh::Flat(n), 2), rand_input(rng, Sh::Flat(3), 1)))));
     }
     // two feedback blocks of different depth and loop count in one network
     for r in 0..(if thorough { 40 } else { 8 }) {
